@@ -17,6 +17,7 @@ type variable struct {
 	typ  string // Go type text
 	cls  string // int uint float complex bool string struct array slice map iface
 	slot bool   // kind is stored by gomacro in the integer slot array (bool, ints, floats, complex)
+	bulk bool   // declared by the bulk action
 	n    int    // slice: current length; array: length
 	st   *structType
 }
@@ -122,6 +123,8 @@ func (g *hgen) value(v variable) string {
 		return fmt.Sprintf("[]int{%d, %d, %d}", g.Int(-5, 50, "s0"), g.Int(-5, 50, "s1"), g.Int(-5, 50, "s2"))
 	case "map":
 		return fmt.Sprintf(`map[string]int{"a": %d, "b": %d}`, g.Int(-5, 50, "m0"), g.Int(-5, 50, "m1"))
+	case "func":
+		return fmt.Sprintf("func(a int) int { return a*%d + %d }", g.Int(-3, 5, "fn-mul"), g.Int(-9, 99, "fn-add"))
 	case "iface":
 		return g.OneOf("iface-val", "interface{}(5)", `interface{}("s")`, "interface{}(2.5)", "interface{}(nil)", "interface{}(true)")
 	}
@@ -132,12 +135,33 @@ func (g *hgen) read(exprs ...string) {
 	g.add(fmt.Sprintf("rec.E(%d, %s)", g.Ev(), strings.Join(exprs, ", ")))
 }
 
+// rd is the expression that observes a value of class cls denoted by expr
+// (function values are observed by calling them).
+func rd(expr, cls string) string {
+	if cls == "func" {
+		return "(" + expr + ")(3)"
+	}
+	return expr
+}
+
+func (p *pointer) deref() string { return rd("*"+p.name, p.elem.cls) }
+
+// rdName observes the variable called name.
+func (g *hgen) rdName(name string) string {
+	for _, v := range g.vars {
+		if v.name == name {
+			return rd(name, v.cls)
+		}
+	}
+	return name
+}
+
 // readVar records v and everything that aliases it.
 func (g *hgen) readVar(v variable) {
-	exprs := []string{v.name}
+	exprs := []string{rd(v.name, v.cls)}
 	for _, p := range g.ptrs {
 		if p.target != "" && (p.target == v.name || strings.HasPrefix(p.target, v.name+".") || strings.HasPrefix(p.target, v.name+"[")) {
-			exprs = append(exprs, "*"+p.name)
+			exprs = append(exprs, p.deref())
 		}
 	}
 	g.read(exprs...)
@@ -150,7 +174,11 @@ func (g *hgen) newScalar() variable {
 
 func (g *hgen) newComposite() variable {
 	v := variable{name: g.Local("v")}
-	k := g.Pick(5, "composite")
+	k := g.Pick(6, "composite")
+	if k == 5 {
+		v.typ, v.cls = "func(int) int", "func"
+		return v
+	}
 	if len(g.types) > 0 && g.Chance(1, 3, "prefer-struct") {
 		k = 0
 	}
@@ -213,7 +241,7 @@ func (g *hgen) declVar() {
 	case 2:
 		g.add(fmt.Sprintf("%s := %s", v.name, g.value(v)))
 	default:
-		if v.cls == "map" { // a nil map cannot be assigned into
+		if v.cls == "map" || v.cls == "func" { // a nil map cannot be assigned into, a nil func cannot be called
 			g.add(fmt.Sprintf("var %s %s = %s", v.name, v.typ, g.value(v)))
 			break
 		}
@@ -375,7 +403,7 @@ func (g *hgen) takeAddr() {
 	g.ptrs = append(g.ptrs, p)
 	g.noteAddr(p, how)
 	if g.Chance(1, 2, "read-after-addr") {
-		g.read("*" + p.name)
+		g.read(p.deref())
 	}
 }
 
@@ -425,6 +453,8 @@ func (g *hgen) mutate(place string, v variable) {
 		} else {
 			g.add(fmt.Sprintf("%s[%s] = %d", place, g.OneOf("map-key", `"a"`, `"b"`, `"c"`), g.Int(-9, 99, "map-val")))
 		}
+	case "func":
+		g.add(fmt.Sprintf("%s = %s", place, g.value(v)))
 	case "iface":
 		g.add(fmt.Sprintf("%s = %s", place, g.OneOf("iface-new", "7", `"t"`, "1.25", "nil", "false")))
 	}
@@ -458,20 +488,212 @@ func (g *hgen) writePtr(p *pointer) {
 	if p.slot && p.after >= 1024 {
 		p.wrote = true
 	}
-	exprs := []string{"*" + p.name}
+	exprs := []string{p.deref()}
 	if p.target != "" {
 		root := p.target
 		if i := strings.IndexAny(root, ".["); i >= 0 {
 			root = root[:i]
 		}
-		exprs = append(exprs, root)
+		exprs = append(exprs, g.rdName(root))
 		for _, q := range g.ptrs {
 			if q != p && q.target == p.target {
-				exprs = append(exprs, "*"+q.name)
+				exprs = append(exprs, q.deref())
 			}
 		}
 	}
 	g.read(exprs...)
+}
+
+// kindOf is the histogram name of v's kind.
+func kindOf(v variable) string {
+	if isSlot(v.cls) || v.cls == "string" {
+		return v.typ
+	}
+	return v.cls
+}
+
+// intGlobal returns an int global (declaring one if there is none).
+func (g *hgen) intGlobal() variable {
+	for _, v := range g.vars {
+		if v.typ == "int" && !v.bulk {
+			return v
+		}
+	}
+	v := variable{name: g.Local("n"), typ: "int", cls: "int", slot: true}
+	g.add(fmt.Sprintf("var %s int = %d", v.name, g.Int(-9, 99, "n0")))
+	g.declared(v)
+	return v
+}
+
+// reassigned: the whole variable got a new value.
+func (g *hgen) reassigned(name string) {
+	for i := range g.vars {
+		if g.vars[i].name == name && g.vars[i].cls == "slice" {
+			g.vars[i].n = 3
+			// pointers into the old backing array no longer alias the variable's elements
+			for _, p := range g.ptrs {
+				if strings.HasPrefix(p.target, name+"[") {
+					p.target = ""
+				}
+			}
+		}
+	}
+}
+
+// assignForms: a global of any kind whose address (and the address of a field / element)
+// was taken in an earlier evaluation is assigned by one of the forms of top-level
+// assignment; then everything is read back, written through the old pointers and read again.
+func (g *hgen) assignForms() {
+	var v variable
+	if len(g.vars) > 0 && g.Chance(1, 3, "af-existing") {
+		v = g.vars[g.Pick(len(g.vars), "af-var")]
+		if v.bulk {
+			v = variable{}
+		}
+	}
+	if v.name == "" {
+		if g.Chance(1, 2, "af-scalar") {
+			v = g.newScalar()
+		} else {
+			v = g.newComposite()
+		}
+		g.add(fmt.Sprintf("var %s %s = %s", v.name, v.typ, g.value(v)))
+		g.declared(v)
+	}
+	// pointers taken before the assignment: to the variable, and into it
+	var whole *pointer
+	for _, p := range g.ptrs {
+		if p.target == v.name {
+			whole = p
+		}
+	}
+	if whole == nil && !(v.typ == "complex128" && vrec.Known("F-C14-3")) {
+		whole = &pointer{name: g.Local("p"), elem: v, target: v.name, slot: v.slot}
+		g.add(fmt.Sprintf("%s := &%s", whole.name, v.name))
+		g.ptrs = append(g.ptrs, whole)
+		g.noteAddr(whole, "var")
+	}
+	if v.cls == "struct" || v.cls == "array" {
+		sub := &pointer{name: g.Local("p")}
+		if v.cls == "struct" {
+			f := v.st.fields[g.Pick(len(v.st.fields), "af-field")]
+			sub.target = v.name + "." + f.name
+			sub.elem = variable{name: sub.target, typ: f.typ, cls: f.cls}
+			g.noteAddr(sub, "field")
+		} else {
+			sub.target = fmt.Sprintf("%s[%d]", v.name, g.Pick(3, "af-idx"))
+			sub.elem = variable{name: sub.target, typ: "int", cls: "int"}
+			g.noteAddr(sub, "elem-array")
+		}
+		g.add(fmt.Sprintf("%s := &%s", sub.name, sub.target))
+		g.ptrs = append(g.ptrs, sub)
+	}
+	if g.Bool("af-read-before") {
+		g.readVar(v)
+	}
+	forms := []string{"plain", "mutate", "tuple-call", "swap", "multi-const", "range", "call-result", "in-func", "tuple-3"}
+	if whole != nil {
+		forms = append(forms, "deref-tuple")
+	}
+	form := forms[g.Pick(len(forms), "af-form")]
+	g.Tag("assign-form:" + form + " x " + kindOf(v))
+	g.Tag("assign-form:" + form)
+	others := []variable{}
+	switch form {
+	case "plain":
+		g.add(fmt.Sprintf("%s = %s", v.name, g.value(v)))
+		g.reassigned(v.name)
+	case "mutate": // op=, ++, --, field / element / key assignment, append
+		if v.cls == "slice" {
+			for _, p := range g.ptrs {
+				if strings.HasPrefix(p.target, v.name+"[") {
+					p.target = ""
+				}
+			}
+			for i := range g.vars {
+				if g.vars[i].name == v.name {
+					g.vars[i].n++
+				}
+			}
+		}
+		g.mutate(v.name, v)
+	case "tuple-call":
+		n, f := g.intGlobal(), g.Local("f")
+		g.add(fmt.Sprintf("func %s() (%s, int) {\n\treturn %s, %d\n}", f, v.typ, g.value(v), g.Int(-9, 99, "tc-n")))
+		if g.Bool("tc-order") {
+			g.add(fmt.Sprintf("%s, %s = %s()", v.name, n.name, f))
+		} else {
+			f2 := g.Local("f")
+			g.add(fmt.Sprintf("func %s() (int, %s) {\n\treturn %d, %s\n}", f2, v.typ, g.Int(-9, 99, "tc-n2"), g.value(v)))
+			g.add(fmt.Sprintf("%s, %s = %s()", n.name, v.name, f2))
+			g.add(fmt.Sprintf("%s, %s = %s()", v.name, n.name, f))
+		}
+		g.reassigned(v.name)
+		others = append(others, n)
+	case "swap":
+		w := variable{name: g.Local("w"), typ: v.typ, cls: v.cls, slot: v.slot, n: 3, st: v.st}
+		g.add(fmt.Sprintf("var %s %s = %s", w.name, w.typ, g.value(w)))
+		g.declared(w)
+		g.add(fmt.Sprintf("%s, %s = %s, %s", v.name, w.name, w.name, v.name))
+		g.reassigned(v.name)
+		g.reassigned(w.name)
+		for i := range g.vars {
+			if g.vars[i].name == w.name {
+				g.vars[i].n = v.n // the lengths were swapped too
+			}
+		}
+		others = append(others, w)
+	case "multi-const":
+		n := g.intGlobal()
+		g.add(fmt.Sprintf("%s, %s = %s, %d", v.name, n.name, g.value(v), g.Int(-9, 99, "mc-n")))
+		g.reassigned(v.name)
+		others = append(others, n)
+	case "tuple-3":
+		n := g.intGlobal()
+		s := variable{name: g.Local("s"), typ: "string", cls: "string"}
+		g.add(fmt.Sprintf("var %s string", s.name))
+		g.declared(s)
+		g.add(fmt.Sprintf("%s, %s, %s = %s, %s, %d", s.name, v.name, n.name, g.lit("string", "string"), g.value(v), g.Int(-9, 99, "t3-n")))
+		g.reassigned(v.name)
+		others = append(others, n, s)
+	case "range":
+		n := g.intGlobal()
+		g.add(fmt.Sprintf("for %s, %s = range []%s{%s, %s} {\n}", n.name, v.name, v.typ, g.value(v), g.value(v)))
+		g.reassigned(v.name)
+		others = append(others, n)
+	case "call-result":
+		f := g.Local("f")
+		g.add(fmt.Sprintf("func %s() %s {\n\treturn %s\n}", f, v.typ, g.value(v)))
+		g.add(fmt.Sprintf("%s = %s()", v.name, f))
+		g.reassigned(v.name)
+	case "in-func":
+		f := g.Local("f")
+		g.add(fmt.Sprintf("func %s() {\n\t%s = %s\n}", f, v.name, g.value(v)))
+		g.add(f + "()")
+		g.reassigned(v.name)
+	case "deref-tuple":
+		n := g.intGlobal()
+		g.add(fmt.Sprintf("*%s, %s = %s, %d", whole.name, n.name, g.value(v), g.Int(-9, 99, "dt-n")))
+		g.reassigned(v.name)
+		others = append(others, n)
+	}
+	// current v (length of a slice may have changed)
+	for _, cur := range g.vars {
+		if cur.name == v.name {
+			v = cur
+		}
+	}
+	g.readVar(v)
+	for _, o := range others {
+		g.readVar(o)
+	}
+	// write through the pointers taken before the assignment, read the aliases back
+	for _, p := range g.ptrs {
+		if p.target != "" && (p.target == v.name || strings.HasPrefix(p.target, v.name+".") || strings.HasPrefix(p.target, v.name+"[")) {
+			g.writePtr(p)
+		}
+	}
+	g.readVar(v)
 }
 
 func (g *hgen) writeSomePtr() {
@@ -585,7 +807,7 @@ func (g *hgen) bulk() {
 		case "string":
 			cls = "string"
 		}
-		bv[i] = variable{name: fmt.Sprintf("%s_%d", id, i), typ: k, cls: cls, slot: isSlot(cls)}
+		bv[i] = variable{name: fmt.Sprintf("%s_%d", id, i), typ: k, cls: cls, slot: isSlot(cls), bulk: true}
 		lines[i] = fmt.Sprintf("%s %s = %s", bv[i].name, k, bulkValue(k, i))
 	}
 	switch shape {
@@ -671,14 +893,14 @@ func (g *hgen) finish() {
 		}
 	}
 	for _, v := range g.vars {
-		batch = append(batch, v.name)
+		batch = append(batch, rd(v.name, v.cls))
 		if len(batch) == 16 {
 			flush()
 		}
 	}
 	flush()
 	for _, p := range g.ptrs {
-		batch = append(batch, "*"+p.name)
+		batch = append(batch, p.deref())
 		if len(batch) == 16 {
 			flush()
 		}
@@ -714,7 +936,7 @@ func Generate(t *rapid.T, px string) gobatch.Program {
 	nsteps := g.Int(3, 12, "nsteps")
 	nbulk := 0
 	for s := 0; s < nsteps; s++ {
-		k := g.Pick(20, "action")
+		k := g.Pick(24, "action")
 		// the bulk action is most interesting right after an address was taken
 		if g.anySlotAddr && g.lastAddrItem >= len(g.items)-2 && nbulk < 2 && g.Chance(1, 2, "bulk-now") {
 			k = 19
@@ -744,6 +966,8 @@ func Generate(t *rapid.T, px string) gobatch.Program {
 			} else {
 				g.declFunc()
 			}
+		case k >= 20:
+			g.assignForms()
 		default:
 			if nbulk < 2 {
 				nbulk++
